@@ -61,9 +61,10 @@ type kase struct {
 	oneway bool
 	body   bool
 	trl    bool
-	up     string // r<code>:<d>:<t> | reset | term<code>
+	up     string // r<code>:<d>:<t> | reset | term<code> | termr<code> (TerminateStream with an in-flight response landing inside it) | st<code>/r<code>:<d>:<t> (TerminateStream on a kept handler of a finished request, then the response)
 	mix    bool   // register sender filters interleaved with the receiver filters
 	ipDeny bool   // the request carries a client address on the ip_access block list
+	fresh  bool   // a stale-handler case in which the pool handed out another object (the stale call was not made)
 	corpus bool   // fixed corpus case: kept exactly as written
 	retry  *retryPol // != nil: the forwarding route carries this retry policy and proxy_disable_retry is NOT set
 }
@@ -187,14 +188,19 @@ func runCase(k *kase) string {
 		pf := px.Filter{Phase: f.phase}
 		for _, v := range f.script {
 			pv := px.Verdict{Status: v.status}
+			// every answer of scripted filter li is tagged with its owner token f<li>: reply headers x-tok, body
+			tag := fmt.Sprintf("f%d", li)
 			switch v.act {
 			case "h":
 				pv.Hijack = v.code
+				pv.ReplyHeaders = px.H("x-tok", tag)
 			case "hb":
 				pv.Hijack = v.code
-				pv.HijackBody = "denied"
+				pv.HijackBody = tag
+				pv.ReplyHeaders = px.H("x-tok", tag)
 			case "d":
 				pv.Direct = true
+				pv.ReplyHeaders = px.H("x-tok", tag)
 			}
 			code, act, status, phase := v.code, v.act, v.status, f.phase
 			if act == "t" || (status == api.StreamFilterReMatchRoute && phase == px.AfterRoute && len(k.routes) > 1) {
@@ -241,7 +247,7 @@ func runCase(k *kase) string {
 		}
 	}
 
-	isTerm := strings.HasPrefix(k.up, "term")
+	isTerm := strings.HasPrefix(k.up, "term") || strings.HasPrefix(k.up, "st")
 	fixture = px.New(px.Config{
 		Clusters:        []px.Cluster{{Name: "c1", Hosts: hosts}},
 		Routes:          routes,
@@ -275,33 +281,89 @@ func runCase(k *kase) string {
 	if k.ipDeny {
 		xip = "10.1.1.1"
 	}
+	// stale-handler cases: warm-up exchanges that finish normally first (their pooled downStream objects go back to the pool,
+	// their hidden terminate handlers are kept), back to back on this goroutine
+	var warm []*px.Exchange
+	if strings.HasPrefix(k.up, "st") {
+		for i := 0; i < 3; i++ {
+			w := fixture.Request(px.H(":path", pathOf(k.routes[0]), ":authority", "svc", ":scheme", "http", "x-ip", xip), nil, nil)
+			a := w.WaitAttempt(0)
+			if a == nil || a.Failed != "" {
+				break
+			}
+			a.Respond(200, nil, nil, nil)
+			if !w.WaitDone(300 * time.Millisecond) {
+				break
+			}
+			w.WaitQuiescent()
+			warm = append(warm, w)
+		}
+		defer func() {
+			for _, w := range warm {
+				w.ForgetProv()
+			}
+		}()
+	}
 	ex := fixture.Request(px.H(":path", pathOf(k.routes[0]), ":authority", "svc", ":scheme", "http", "x-ip", xip), body, trailers)
+	defer ex.ForgetProv()
 
+	tm := "-" // return value of the asynchronous TerminateStream call of the case, when one is made
+	tb := func(x bool) string {
+		if x {
+			return "1"
+		}
+		return "0"
+	}
 	// phase 1: the worker runs until it finishes, waits for the upstream, or gives up
 	waitSettled(ex)
 	// phase 2: the upstream event, once, if the request is waiting for one
 	if !ex.Done() {
 		if as := ex.UpstreamAttempts(); len(as) > 0 && as[0].Failed == "" {
 			a := as[0]
-			switch {
-			case k.up == "reset":
-				a.Reset(types.StreamRemoteReset)
-			case isTerm:
+			up := k.up
+			if strings.HasPrefix(up, "st") {
+				// TerminateStream on the kept handler of the finished warm-up exchange whose pooled object this request runs on
+				// (when the pool handed out another object the call is not made and the case is an ordinary response case)
+				p := strings.SplitN(up[2:], "/", 2)
 				var code int
-				fmt.Sscan(k.up[4:], &code)
-				ex.Terminate(code)
+				fmt.Sscan(p[0], &code)
+				var stale *px.Exchange
+				for _, w := range warm {
+					if w.SharesStreamWith(ex) {
+						stale = w
+					}
+				}
+				if stale != nil {
+					r, _ := stale.TerminateSafe(code)
+					tm = tb(r)
+					ex.WaitQuiescentFor(4 * time.Millisecond)
+				} else {
+					k.up = p[1]
+					k.fresh = true
+				}
+				up = p[1]
+			}
+			switch {
+			case ex.Done():
+			case up == "reset":
+				a.Reset(types.StreamRemoteReset)
+			case strings.HasPrefix(up, "termr"):
+				// an in-flight response of the attempt lands inside TerminateStream's reset of the upstream request
+				var code int
+				fmt.Sscan(up[5:], &code)
+				rh, rb, rt := px.AnswerOf(0, true, false)
+				a.OnProxyReset(func() { a.RespondInFlight(rh, rb, rt); ex.WaitQuiescentFor(6 * time.Millisecond) })
+				tm = tb(ex.Terminate(code))
+				a.OnProxyReset(nil)
+			case strings.HasPrefix(up, "term"):
+				var code int
+				fmt.Sscan(up[4:], &code)
+				tm = tb(ex.Terminate(code))
 			default:
 				var code, d, t int
-				fmt.Sscanf(k.up, "r%d:%d:%d", &code, &d, &t)
-				var rb []byte
-				var rt map[string]string
-				if d == 1 {
-					rb = []byte("resp")
-				}
-				if t == 1 {
-					rt = px.H("rt", "1")
-				}
-				a.Respond(code, nil, rb, rt)
+				fmt.Sscanf(up, "r%d:%d:%d", &code, &d, &t)
+				rh, rb, rt := px.AnswerOf(0, d == 1, t == 1)
+				a.Respond(code, rh, rb, rt)
 			}
 			if !ex.WaitDone(500 * time.Millisecond) {
 				ex.WaitQuiescentFor(25 * time.Millisecond)
@@ -312,6 +374,17 @@ func runCase(k *kase) string {
 	}
 
 	var out []string
+	own := [3]string{"-", "-", "-"} // answer tokens of the headers / data / trailers written downstream
+	toks := ex.DownToks()
+	nd := 0
+	nextTok := func() string {
+		t := "?"
+		if nd < len(toks) {
+			t = toks[nd]
+		}
+		nd++
+		return t
+	}
 	for _, t := range ex.Trace() {
 		p := strings.Split(t, ":")
 		switch p[0] {
@@ -329,10 +402,13 @@ func runCase(k *kase) string {
 			out = append(out, "uf")
 		case "dh":
 			out = append(out, t)
+			own[0] = nextTok()
 		case "dd":
 			out = append(out, "dd:"+p[2])
+			own[1] = nextTok()
 		case "dt":
 			out = append(out, "dt")
+			own[2] = nextTok()
 		case "dr":
 			out = append(out, "dr")
 		}
@@ -342,6 +418,7 @@ func runCase(k *kase) string {
 	} else {
 		out = append(out, "done=0")
 	}
+	out = append(out, "own="+own[0]+"/"+own[1]+"/"+own[2], "tm="+tm)
 	return strings.Join(out, " ")
 }
 
@@ -418,6 +495,7 @@ var pure = []verdict{{"n", 0, sC}, {"n", 0, sS}, {"n", 0, sT}, {"h", 403, sS}, {
 // case), a handler TerminateStream call, an unknown status string
 var full = append(append([]verdict{}, pure...),
 	verdict{"h", 403, sC}, verdict{"h", 401, sRM}, verdict{"h", 401, sRC}, verdict{"h", 403, sT}, verdict{"hb", 429, sS},
+	verdict{"hb", 429, sC},
 	verdict{"d", 0, sC}, verdict{"d", 0, sRM}, verdict{"t", 499, sC}, verdict{"t", 499, sS}, verdict{"n", 0, "bogus"})
 
 func isAgain(v verdict) bool { return v.status == sRM || v.status == sRC }
@@ -472,7 +550,7 @@ func randEnv(r *hx.Rng, k *kase) {
 	k.oneway = r.Chance(4)
 	k.body = r.Chance(30)
 	k.trl = r.Chance(10)
-	k.up = r.PickS([]string{"r200:0:0", "r200:0:0", "r200:1:0", "r503:1:1", "r404:0:1", "reset", "term499"})
+	k.up = r.PickS([]string{"r200:0:0", "r200:0:0", "r200:1:0", "r503:1:1", "r404:0:1", "reset", "term499", "termr499"})
 	k.send = sendChains[r.Intn(len(sendChains))]
 	if r.Chance(60) {
 		k.send = sendChains[1+r.Intn(2)]
@@ -585,6 +663,28 @@ func Run(c *hx.Ctx) {
 		}
 		add(plain(&kase{recv: []rfilter{{phase: px.AfterRoute, script: append(append([]verdict{}, sc...), verdict{"n", 0, sC})}}}))
 		add(plain(&kase{recv: []rfilter{{phase: px.AfterRoute, script: append(append([]verdict{}, sc...), verdict{"h", 403, sS})}}}))
+	}
+
+	// two answering filters in one pass: the first answers WITH a body and lets the chain go on, a later one denies header-only
+	// (and the other way round; across the three ways of answering; in every receive phase)
+	for _, ph := range []px.Phase{px.BeforeRoute, px.AfterRoute, px.AfterChooseHost} {
+		for _, first := range []verdict{{"hb", 429, sC}, {"h", 403, sC}, {"d", 0, sC}} {
+			for _, second := range []verdict{{"h", 403, sS}, {"hb", 409, sS}, {"d", 0, sS}, {"h", 401, sC}, {"t", 499, sS}} {
+				add(plain(&kase{recv: []rfilter{{phase: ph, script: []verdict{first}}, {phase: ph, script: []verdict{second}}}}))
+			}
+		}
+	}
+	// TerminateStream on a kept handler of a FINISHED request whose pooled object the next request runs on (no filter
+	// answers: only a request that finishes normally gives its buffers back), and TerminateStream with an in-flight upstream
+	// response landing inside the call
+	for i := 0; i < c.N(24, 60); i++ {
+		var chain []rfilter
+		for j := 0; j < i%3; j++ {
+			chain = append(chain, rfilter{phase: px.Phase((i + j) % 3), script: []verdict{{"n", 0, sC}}})
+		}
+		k := plain(&kase{recv: chain})
+		k.up = []string{"st419/r200:1:0", "st419/r200:0:0", "st419/r404:1:1", "termr499", "st419/reset"}[i%5]
+		add(k)
 	}
 
 	// a local reply on a route with a live retry policy (the filter's status is retriable, budget left) must not be
@@ -715,6 +815,9 @@ func Run(c *hx.Ctx) {
 		c.Count(fmt.Sprintf("send.len=%d", len(k.send)))
 		c.Count("route=" + strings.Join(k.routes, ","))
 		c.Count("up=" + k.up)
+		if k.fresh {
+			c.Count("stale.fresh") // the pool handed out another object: the stale call was not made
+		}
 		c.Count("pool=" + k.pool)
 		if k.retry != nil {
 			c.Count("retry=" + k.retry.kind)
